@@ -258,6 +258,21 @@ theorem release_after_open (segSize maxSeg : Nat) (hs : 0 < segSize) (fn : ProcF
             rw [ih (i + 1) fin]
   exact key _ 0 _
 
+/-- T1: the order of the steps of `Decrypt` the model implements (MAC check before any payload work)
+    is the order `factgen_c01` reads off the source. -/
+theorem decrypt_order_as_modelled :
+    Gen.decryptOrder = ["readHeader", "json.Unmarshal", "Validate", "UnwrapKeyFn", "importFileKey",
+      "VerifyHeaderSignature", "processSegments"] ∧
+    Gen.maxSegment + 1 = 2 ^ 32 ∧ Gen.fileKeyLength = 32 := by decide
+
+/-- Non-vacuity of the segment hypothesis beyond the bare header: for every lawful AEAD the honest
+    sealed segments (hence every truncation of the honest payload at a segment boundary) satisfy it. -/
+theorem tamper_safe_on_honest_prefixes (c : Crypto) (P : EncParams) (cph : Nat) (pk np : Bytes) (p : Bytes) :
+    PresentedNoForgery c P cph pk np (segments P.segSize p)
+      (sealedSegs c P cph pk np 0 (segments P.segSize p)) 0 := by
+  have := presented_honest c P cph pk np (segments P.segSize p) []
+  simpa using this
+
 /-! ### the full statement and its negation -/
 
 /-- The full statement of C02's "never decrypts silently" (no proviso about bytes after the
